@@ -1,7 +1,15 @@
 """CrossHair harness for C27: the files of a library are parsed (outside tracing), then merged in a given
 order with Tree.extend exactly as tools.compiler.parse_all / casadi.api._compile_model do, and every class is
 flattened; the flat models must equal those of file order 0.  All literals (package constants included) are
-symbolic."""
+symbolic.
+
+`order` works on trees parsed once at import; `history` parses every file anew at the moment it is merged
+(ANTLR inside a NoTracing block), first with one set of literals and then with another one, so that anything
+the parser keeps between parses of one process is part of the claim.
+
+LIBS is also the family of the concrete stages of props/c27.py (fresh-process assembly sequences, structural
+comparison of the merged trees, directory / library_folders walks of the CasADi API)."""
+import contextlib
 import itertools
 import pickle
 
@@ -9,6 +17,11 @@ from pymoca import ast, parser, tree
 from props.hflat import subst, flat, same
 from vk import chstubs
 from vk.chstubs import pin, PIN
+
+try:
+    from crosshair.tracers import NoTracing
+except Exception:  # concrete replay without crosshair
+    NoTracing = contextlib.nullcontext
 
 chstubs.install_format_cut()
 chstubs.silence(tree, parser)
@@ -39,13 +52,66 @@ LIBS = {
         "model B\n  extends A(p = 7002);\n  Real y = x + 7003;\nend B;\n",
         "model C\n  A a;\n  B b;\nend C;\n",
     ], ["A", "B", "C"]),
+    # -- a package's own file WITHOUT package-level constants: everything a model of the package needs from it
+    #    are its import clauses (renamed + unqualified) and a nested package
+    "imports-only": ([
+        "package Units\n  type Length = Real(nominal = 7001);\n  type Time = Real(nominal = 60);\nend Units;\n",
+        "package Plant \"plant library\"\n  import L = Units.Length;\n  import Units.*;\n  package Data\n    constant Real g = 7002;\n  end Data;\nend Plant;\n",
+        "within Plant;\nmodel Tank\n  L h(start = 7003);\n  Time tau;\n  parameter Real a = 7004 * Data.g;\nequation\n  der(h) = -a * h;\n  tau = 3;\nend Tank;\n",
+    ], ["Plant.Tank"]),
+    # -- own file with nothing but a qualified import (single name) and a description string
+    "qualified-import": ([
+        "package Units\n  type Mass = Real(min = 7001);\n  constant Real u = 7002;\nend Units;\n",
+        "package Q \"only an import\"\n  import Units.Mass;\n  import Units.u;\nend Q;\n",
+        "within Q;\nmodel Body\n  Mass m(start = 7003);\n  Real w;\nequation\n  w = m * 7004;\nend Body;\n",
+    ], ["Q.Body"]),
+    # -- own file with nothing but an extends clause: the package itself is flattened (inherited constants)
+    "extends-only": ([
+        "package Base\n  constant Real g = 7001;\n  constant Real h = g + 7002;\nend Base;\npackage P\n  extends Base;\nend P;\n",
+        "within P;\nmodel N\n  Real y = 7003;\nend N;\n",
+    ], ["P", "P.N"]),
+    # -- three levels of within clauses; every level has its own constant
+    "deep": ([
+        "package P\n  constant Real i = 7001;\n  package Q\n    constant Real j = 7002;\n    package R\n      constant Real k = 7003;\n    end R;\n  end Q;\nend P;\n",
+        "within P.Q.R;\nmodel A\n  Real a = k + j + i;\nend A;\n",
+        "within P.Q;\nmodel B\n  R.A ra;\n  Real b = ra.a + j * R.k + 7004;\nend B;\n",
+        "within P;\nmodel C\n  Q.B qb;\n  Real c = qb.b + Q.R.k + i;\nend C;\n",
+    ], ["P.Q.R.A", "P.Q.B", "P.C"]),
+    # -- the same class name at top level and inside the package (the inner one must win in every order)
+    "shadow": ([
+        "model A\n  Real a = 7001;\nend A;\n",
+        "package P\n  constant Real g = 7002;\nend P;\n",
+        "within P;\nmodel A\n  Real a2 = g + 7003;\nend A;\n",
+        "within P;\nmodel B\n  A x;\n  Real b = x.a2 + 7004;\nend B;\n",
+    ], ["A", "P.A", "P.B"]),
+    # -- a package nested in a package of the same name (within P.P)
+    "same-name": ([
+        "package P\n  constant Real g = 7001;\n  package P\n    constant Real k = 7002;\n  end P;\nend P;\n",
+        "within P.P;\nmodel M\n  Real m = k * 7003;\nend M;\n",
+        "within P;\nmodel N\n  P.M pm;\n  Real n = pm.m + P.k + g + 7004;\nend N;\n",
+    ], ["P.P.M", "P.N"]),
+    # -- two top-level packages, each with its own file and a within file, using each other
+    "two-packages": ([
+        "package A\n  constant Real a = 7001;\nend A;\n",
+        "package B\n  import A.a;\n  constant Real b = 7002;\nend B;\n",
+        "within A;\nmodel MA\n  Real x = a + B.b + 7003;\nend MA;\n",
+        "within B;\nmodel MB\n  A.MA ma;\n  Real y = ma.x + a + b + 7004;\nend MB;\n",
+    ], ["A.MA", "B.MB"]),
+    # -- class prefixes and annotation of the package's own file (concrete stages only)
+    "prefixes": ([
+        "model Outer\n  Real o = 7001;\nend Outer;\n",
+        "final encapsulated partial package P \"doc\"\n  constant Real g = 7002;\n  annotation(version = \"1\");\nend P;\n",
+        "within P;\nmodel N\n  Outer q;\n  Real y = g + q.o + 7003;\nend N;\n",
+        "within P;\nmodel K\n  Real z = g + 7004;\nend K;\n",
+    ], ["P.N", "P.K"]),
 }
 
 LIB = PIN.get("lib", "pkgconst")
 FILES, NAMES = LIBS[LIB]
 PERMS = list(itertools.permutations(range(len(FILES))))
 _PARSED = []
-for _txt in FILES:  # at import time: ANTLR never runs under tracing
+# pin parse=0: the concrete stages of c27.py only read LIBS and must find a parser that has not parsed anything yet
+for _txt in (FILES if PIN.get("parse", 1) else []):  # at import time: ANTLR never runs under tracing
     _t = parser.parse(_txt, bypass_cache=True)
     if _t is None:
         raise ValueError("library file does not parse: " + _txt[:40])
@@ -86,6 +152,46 @@ def order(pi: int, style: int, v1: int, v2: int, v3: int, v4: int) -> int:
     b = flats(PERMS[pi], vals, style)
     for x, y in zip(a, b):
         if not same(x, y):
+            return 0
+    return 1
+
+
+def fresh(perm, vals, style):
+    """Like merged(), but every file is parsed anew at the moment it is merged (parse and merge interleaved,
+    as tools.compiler.parse_all and casadi.api._compile_model do).  ANTLR runs outside tracing."""
+    t = ast.Tree(name="ModelicaTree") if style == 0 else None
+    for i in perm:
+        with NoTracing():
+            x = parser.parse(FILES[i], bypass_cache=True)
+        x = subst(x, vals)
+        if t is None:
+            t = x
+        else:
+            t.extend(x)
+    return t
+
+
+def fresh_flats(perm, vals, style):
+    return [flat(fresh(perm, vals, style), n) for n in NAMES]
+
+
+def history(pi: int, style: int, v1: int, v2: int, v3: int, v4: int, w1: int, w2: int, w3: int, w4: int) -> int:
+    """
+    pre: 0 <= pi < len(PERMS) and 0 <= style <= 1 and pin(pi=pi, style=style)
+    post: _ == 1
+    """
+    # The library is assembled (order pi) and flattened with literals v; then the same files - same package
+    # and class names - are parsed and assembled again with literals w in order 0 and in order pi.  The two
+    # must agree with each other and with the trees parsed before anything was merged in this process.
+    if "pi" in PIN:
+        pi, style = PIN["pi"], PIN["style"]
+    vals, wals = [v1, v2, v3, v4], [w1, w2, w3, w4]
+    fresh_flats(PERMS[pi], vals, style)
+    a = fresh_flats(PERMS[0], wals, style)
+    b = fresh_flats(PERMS[pi], wals, style)
+    c = flats(PERMS[0], wals, style)
+    for x, y, z in zip(a, b, c):
+        if not same(x, y) or not same(x, z):
             return 0
     return 1
 
